@@ -70,7 +70,7 @@ SPEC = {
     'ToLinen init returns the freshly constructed state, not the state after the first call (as coded)',
     'tolinen_refines_nnx: the abstract NNX call keeps the set of Variables and their types (NModOk.shape; new structure needs a mutable nnx collection and is outside the theorem), reads its state by look-up (NModOk.ext); nnx.merge/split themselves are an opaque graph-definition token (C03 territory)',
     'tonnx_refines_linen: the abstract Linen apply returns the same updates dict for variables dicts with the same leaves (ModOk.ext)',
-    'random keys are symbolic terms (base key, Linen make_rng at a scope path, fold_in); that distinct terms are distinct keys is A-RNG',
+    'random keys are symbolic terms (base key, Linen make_rng at a scope path with the scope counter, fold_in); that distinct terms are distinct keys is A-RNG; the k-th make_rng key of a scope is compared with a plain Linen probe module at the same path',
   ],
   'model_partial': [],
 }
@@ -1875,6 +1875,121 @@ def run_lift_tonnx_case(ctx, spec, axis, n):
 
 
 # ------------------------------------------------------------------------------------------------
+# part 5: one ToLinen instance called several times inside a single Linen init/apply, with rng use
+# ------------------------------------------------------------------------------------------------
+
+
+class NoiseMod(nnx.Module):
+  """Draws one key per entry of `draws` (stream names) on every call and logs the keys it was given."""
+
+  def __init__(self, draws, *, rngs):
+    self.draws = draws
+    self.w = nnx.Param(jnp.asarray(2, jnp.int32))
+    self.rngs = rngs
+
+  def __call__(self, x):
+    for st in self.draws:
+      k = getattr(self.rngs, st)()
+      KEYLOG.append((st, key_str(k)))
+      x = x + jax.random.randint(k, x.shape, 0, 1000)
+    return x * self.w.value
+
+
+class ProbeInner(nn.Module):
+  """Reference: a plain Linen module that calls make_rng(name) for every stream, `n` times."""
+
+  names: tuple
+  n: int
+
+  def __call__(self):
+    return [{nm: self.make_rng(nm) for nm in self.names} for _ in range(self.n)]
+
+
+def run_repeated_calls_case(ctx, draws, ncalls, style, seeds):
+  case = {'kind': 'tolinen-repeated-calls', 'draws': list(draws), 'ncalls': ncalls, 'style': style, 'seeds': seeds}
+  ctx.case(case)
+  ctx.count('repeat_calls', ncalls)
+  ctx.count('repeat_style', style)
+  ctx.count('repeat_draws_per_call', len(draws))
+  ctx.count('repeat_streams', len(set(draws)))
+  with RegistryGuard():
+    if style == 'compact':
+
+      class Parent(nn.Module):
+        @nn.compact
+        def __call__(self, x):
+          inner = bridge.ToLinen(NoiseMod, args=(draws,), name='inner')
+          return tuple(inner(x) for _ in range(ncalls))
+
+    else:
+
+      class Parent(nn.Module):
+        def setup(self):
+          self.inner = bridge.to_linen(NoiseMod, draws)
+
+        def __call__(self, x):
+          return tuple(self.inner(x) for _ in range(ncalls))
+
+    class ProbeParent(nn.Module):
+      names: tuple
+
+      @nn.compact
+      def __call__(self):
+        return ProbeInner(self.names, ncalls, name='inner')()
+
+    x = jnp.zeros((2, 3), jnp.int32)
+    streams = sorted(set(draws))
+    init_rngs = {'params': jax.random.key(seeds[0]), **{st: jax.random.key(seeds[1] + i) for i, st in enumerate(streams)}}
+    apply_rngs = {st: jax.random.key(seeds[2] + i) for i, st in enumerate(streams)}
+
+    def expected(rngs):
+      probe = ProbeParent(tuple(rngs)).apply({}, rngs=dict(rngs))
+      out = []
+      for k in range(ncalls):
+        seen = {}
+        for st in draws:
+          j = seen.get(st, 0)
+          seen[st] = j + 1
+          out.append((st, key_str(jax.random.fold_in(probe[k][st], j))))
+      return out
+
+    def check(what, rngs, run):
+      k0 = len(KEYLOG)
+      r = call(run)
+      got = KEYLOG[k0:]
+      if r[0] != 'ok':
+        ctx.violation('repeat-raises', f'{what} of a Linen parent calling one ToLinen instance {ncalls} times raised {r[1]}', case)
+        return None
+      outs = r[1]
+      want = expected(rngs)
+      per = len(draws)
+      for k in range(ncalls):
+        for k2 in range(k + 1, ncalls):
+          if set(got[k * per : (k + 1) * per]) & set(got[k2 * per : (k2 + 1) * per]):
+            ctx.violation('tolinen-repeated-call-reuses-keys', f'{what}: call {k2} of the same ToLinen instance inside one Linen {what} got a key that call {k} already used (streams {streams}); the NNX module itself never repeats a key', case)
+            return None
+      if got != want:
+        ctx.violation('tolinen-repeated-call-keys-differ', f'{what}: the keys the NNX module drew are not fold_in(k-th make_rng key at the wrapper\'s scope, j): first difference at draw {next(i for i, (a, b) in enumerate(zip(got, want)) if a != b) if len(got) == len(want) else (len(got), len(want))}', case)
+        return None
+      if per and any(out_str(outs[k]) == out_str(outs[k + 1]) for k in range(ncalls - 1)):
+        ctx.violation('tolinen-repeated-call-same-output', f'{what}: two consecutive calls of the wrapper returned the same value although the NNX module draws fresh noise on every call', case)
+        return None
+      return outs
+
+    r0 = call(lambda: Parent().init_with_output(dict(init_rngs), x))
+    k0 = len(KEYLOG)
+    outs = check('init', init_rngs, lambda: Parent().init_with_output(dict(init_rngs), x)[0])
+    if outs is None or r0[0] != 'ok':
+      return
+    vs = r0[1][1]
+    for mutable in (False, True):
+      kw = {} if mutable is False else {'mutable': True}
+      run = (lambda: Parent().apply(vs, x, rngs=dict(apply_rngs))) if mutable is False else (lambda: Parent().apply(vs, x, rngs=dict(apply_rngs), mutable=True)[0])
+      if check(f'apply(mutable={mutable})', apply_rngs, run) is None:
+        return
+
+
+# ------------------------------------------------------------------------------------------------
 # model comparison of the queued wrapper requests
 # ------------------------------------------------------------------------------------------------
 
@@ -2066,6 +2181,15 @@ def run(ctx):
       ctx.disagreements_checked += 1
       ctx.violation('axis-model-mismatch', f'lifted ToLinen: model {m} vs implementation {want}', acase, concrete=False)
 
+  # part 5
+  for i in range(40 * k):
+    draws = tuple(rng.choice(['dropout', 'noise']) for _ in range(rng.randrange(1, 3)))
+    ncalls = rng.randrange(2, 5)
+    style = 'compact' if i % 3 else 'setup'
+    seeds5 = [rng.randrange(100), rng.randrange(100, 200), rng.randrange(200, 300)]
+    rcase = {'kind': 'tolinen-repeated-calls', 'draws': list(draws), 'ncalls': ncalls, 'style': style, 'seeds': seeds5}
+    guarded(ctx, rcase, lambda: run_repeated_calls_case(ctx, draws, ncalls, style, seeds5))
+
   ctx.sample({'kind': 'tree-valid', 'vars': forest_json(cases[0][0], lbox_json)})
   ctx.sample({'kind': 'tree-' + cases[-1][1], 'vars': forest_json(cases[-1][0], lbox_json)})
   ctx.extra['exhaustive'] = False
@@ -2099,6 +2223,8 @@ def _run_case(ctx, drv, obj):
       guarded(ctx, case, lambda: run_lift_case(ctx, aspec, case['transform'], case['axis'], case['n'], a1, a2))
     else:
       guarded(ctx, case, lambda: run_lift_tonnx_case(ctx, aspec, case['axis'], case['n']))
+  elif kind == 'tolinen-repeated-calls':
+    guarded(ctx, case, lambda: run_repeated_calls_case(ctx, tuple(case['draws']), case['ncalls'], case['style'], case['seeds']))
   elif kind == 'axis-box':
     check_axis_boxes(ctx, drv)
   elif kind in ('box', 'registry', 'merge') or (kind or '').startswith('tree-'):
